@@ -215,6 +215,31 @@ def run(repo: Repo, rep: Report, tier: str) -> None:
     # ---- accepted / rejected is a partition of the negotiation result ---------------------------
     from ..delegate import delegate as _delegate
     _delegate(repo, rep, tier, "C10", ("one-result",), "ac-results", "the A-ASSOCIATE-AC does not carry exactly one result item per proposed presentation context (items missing for some ids, ids repeated): the response is not structurally conformant")
+    # the primitive keeps every context it is given: AE.associate() validates and numbers whatever is an instance of
+    # PresentationContext (subclasses included) - a setter that filters by class *name* drops subclass instances with a
+    # warning, and the request goes out without contexts the requestor believes it proposed
+    from ..minipy import Interp as _I12, Obj as _O12, Raised as _R12, Unsupported as _U12
+    pp_ = repo.mod("pdu_primitives")
+    aci_ = pp_.classes.get("A_ASSOCIATE")
+    for prop_ in ("presentation_context_definition_list", "presentation_context_definition_results_list"):
+        st_ = aci_.setters.get(prop_) if aci_ is not None else None
+        if st_ is None:
+            rep.defer(f"pdu_primitives.A_ASSOCIATE.{prop_}: setter vanished")
+            continue
+        plain = _O12("PresentationContext", {"context_id": 1})
+        plain.attrs["__class__"] = _O12("type", {"__name__": "PresentationContext"})
+        sub = _O12("AuditedContext", {"context_id": 3, "@bases": ("PresentationContext",)})
+        sub.attrs["__class__"] = _O12("type", {"__name__": "AuditedContext"})
+        me_ = _O12("A_ASSOCIATE", {"_" + prop_: None})
+        try:
+            _I12({"PresentationContext": "PresentationContext"}).call_function(st_, dict(zip([a.arg for a in st_.args.args], [me_, [plain, sub]])))
+            kept = me_.attrs.get("_" + prop_)
+            okk = isinstance(kept, list) and len(kept) == 2 and kept[0] is plain and kept[1] is sub
+            rep.check(okk, "validated", f"pdu_primitives.A_ASSOCIATE.{prop_}", f"[PresentationContext, subclass instance] -> {len(kept) if isinstance(kept, list) else kept!r} kept", "the primitive drops a context that AE.associate() accepted, numbered and reports as proposed (an instance of a PresentationContext subclass): the A-ASSOCIATE-RQ carries fewer context items than were validated - possibly none", mod=pp_, node=st_)
+        except _R12 as r_:
+            rep.fail("validated", f"pdu_primitives.A_ASSOCIATE.{prop_}", f"raises {r_.kind}", "the setter refuses a list of valid contexts", mod=pp_, node=st_)
+        except _U12 as exc:
+            rep.defer(f"pdu_primitives.A_ASSOCIATE.{prop_}: setter not evaluable ({exc})")
     rep.rule("ac-partition", "every negotiated context lands in exactly one of accepted / rejected: the A-ASSOCIATE-AC answers all of them")
     na = repo.func("acse", "ACSE._negotiate_as_acceptor")
     fqn = "acse.ACSE._negotiate_as_acceptor"
